@@ -26,7 +26,7 @@ mod time_format {
         D: Deserializer<'de>,
     {
         let s = String::deserialize(deserializer)?;
-        if s.len() != 4 {
+        if s.len() != 4 || !s.is_ascii() {
             return Err(serde::de::Error::custom("Time must be 4 digits (HHMM)"));
         }
         let hours: u32 = s[0..2].parse().map_err(serde::de::Error::custom)?;
@@ -55,7 +55,7 @@ mod date_format {
         D: Deserializer<'de>,
     {
         let s = String::deserialize(deserializer)?;
-        if s.len() != 6 {
+        if s.len() != 6 || !s.is_ascii() {
             return Err(serde::de::Error::custom("Date must be 6 digits (YYMMDD)"));
         }
 
@@ -105,6 +105,7 @@ impl SwiftField for Field13C {
     where
         Self: Sized,
     {
+        super::swift_utils::require_ascii(input, "Field 13C")?;
         // Minimum: /8c/4!n1!x4!n = / + 8 + / + 4 + 1 + 4 = 18 chars minimum
         if input.len() < 10 {
             // At minimum we need /X/ + time + sign + offset
@@ -243,6 +244,7 @@ impl SwiftField for Field13D {
     where
         Self: Sized,
     {
+        super::swift_utils::require_ascii(input, "Field 13D")?;
         // Must be exactly 15 characters: 6 (date) + 4 (time) + 1 (sign) + 4 (offset)
         if input.len() != 15 {
             return Err(ParseError::InvalidFormat {
